@@ -97,3 +97,10 @@ func VerifIsTokenOctet(b byte) bool                          { return isTokenOct
 func VerifHTTPProxyDial(ctx context.Context, proxyURL *url.URL, forward func(ctx context.Context, network, addr string) (net.Conn, error), addr string) (net.Conn, error) {
 	return (&httpProxyDialer{proxyURL: proxyURL, forwardDial: forward}).DialContext(ctx, "tcp", addr)
 }
+
+// VerifTapDecompression makes the connection's decompressor read the raw (still compressed) message
+// through tap(r), so that a harness can observe the read requests compress/flate and the drain of
+// the rest of the message make on the message reader.
+func VerifTapDecompression(c *Conn, tap func(io.Reader) io.Reader) {
+	c.newDecompressionReader = func(r io.Reader) io.ReadCloser { return decompressNoContextTakeover(tap(r)) }
+}
